@@ -291,3 +291,11 @@ func isNetRead(name string) bool {
 func readsSocket(fn *ssa.Function) bool {
 	return reachesCall(fn, isNetRead, map[*ssa.Function]bool{})
 }
+
+// typesHelpers: unexported plain functions of package types are helpers of the exported functions and
+// methods that call them; exported functions and methods stay visible as events.
+func typesHelpers(p *Program) func(f *ssa.Function, d int) bool {
+	return inlineHelpers([]*ssa.Package{p.SSAPkg("types")}, func(f *ssa.Function) bool {
+		return f.Object() != nil && (f.Object().Exported() || f.Signature.Recv() != nil)
+	})
+}
